@@ -146,8 +146,14 @@ def http_patterns(ctx):
     out = os.path.join(ctx.work, 'httppattern.json')
     cfg = pc.write_cfg(os.path.join(ctx.work, 'exph.cfg'), ['INIT Init', 'NEXT Next', 'CHECK_DEADLOCK FALSE'])
     tlc.run('ExportHttpPattern', cfg, ctx.work, env={'OUT_FILE': out})
-    rows = json.load(open(out))
+    exported = json.load(open(out))
+    rows = exported['rows']
     ran = []
+    from spyne import ComplexModel
+
+    class Person(ComplexModel):
+        __namespace__ = 'urn:models'
+        name = Unicode
 
     class S(Service):
         @srpc(_returns=Integer, _patterns=[HttpPattern('/a', verb='GET')])
@@ -170,6 +176,12 @@ def http_patterns(ctx):
 
         @srpc(_returns=Integer, _in_message_name='find', _patterns=[HttpPattern(verb='GET')])
         def lookup(): ran.append('m7'); return 1
+
+        @srpc(Person, _returns=Integer, _body_style='bare', _patterns=[HttpPattern('/people/<name>')])
+        def m8(p): ran.append('m8'); return 1
+
+        @srpc(Unicode, _returns=Integer, _in_message_name='{urn:other}look', _patterns=[HttpPattern('/lookup/<k>')])
+        def m9(k): ran.append('m9'); return 1
     try:
         w = WsgiApplication(Application([S], 'tns', in_protocol=HttpRpc(), out_protocol=JsonDocument()))
     except Exception as e:
@@ -193,6 +205,36 @@ def http_patterns(ctx):
             ctx.violation('httppattern|route=%s|ran=%s|verb=%s|host=%s|path=%s' % (r['route'], '+'.join(ran) or 'nothing', r['verb'], r['host'], '/'.join(r['path'])),
                           'HttpPattern request %s %s%s ran %s (status %s), SpyneHttpPattern.Route says %s' % (
                               r['verb'], r['host'], env['PATH_INFO'], ran, status, r['route']), {'request': r, 'ran': list(ran), 'status': status})
+    # ---- WsgiMounter
+    from spyne.util.wsgi_wrapper import WsgiMounter
+    who = []
+
+    def mkapp(tag):
+        def whoami():
+            who.append(tag)
+            return 1
+        svc = type(str('Svc_' + tag), (Service,), {'whoami': srpc(_returns=Integer)(whoami)})
+        return Application([svc], 'tns', name=str('App_' + tag), in_protocol=HttpRpc(), out_protocol=JsonDocument())
+    mounts = sorted(exported['mounts'])
+    import itertools
+    for order in itertools.permutations(mounts):
+        wm = WsgiMounter(dict((m_, mkapp(m_)) for m_ in order))
+        for r in sorted(exported['mountrows'], key=lambda r: r['frag']):
+            env = {'REQUEST_METHOD': 'GET', 'PATH_INFO': '/%s/whoami' % r['frag'], 'QUERY_STRING': '', 'SERVER_NAME': 'x', 'SERVER_PORT': '80',
+                   'wsgi.url_scheme': 'http', 'wsgi.input': io.BytesIO(b'')}
+            del who[:]
+            st = []
+            try:
+                b''.join(wm(env, lambda s_, h, e=None: st.append(s_)))
+                status = int(st[0].split()[0])
+            except Exception as e:
+                status = -1
+            n += 1
+            want = [] if r['route'] == 'notfound' else [r['route']]
+            if who != want or (not want and status != 404):
+                ctx.violation('mounter|route=%s|ran=%s|frag=%s' % (r['route'], '+'.join(who) or 'nothing', r['frag']),
+                              'WsgiMounter%r: GET /%s/whoami ran %s (status %s), the mount table says %s' % (list(order), r['frag'], who, status, r['route']),
+                              {'mount_order': list(order), 'fragment': r['frag'], 'ran': list(who), 'status': status})
     ctx.cov_add(httppattern_requests=n)
     return n
 
